@@ -118,7 +118,7 @@ def predicate_classes(prog: Program, name: str):
     via_origin = False
     raising = False
     extra_membership = []
-    for p in P.paths_of(prog, f):
+    for p in P.spaths(prog, f):  # (the class test may sit in a private helper the predicate calls)
         terms = list(p.all_terms())
         for tm in terms:
             for c in T.calls_in(tm):
